@@ -253,7 +253,7 @@ pub fn run(ctx: &mut Ctx) {
         let _ = Repr::Auto;
     }
     // (d) random programs and operator calls
-    let n = ctx.n(300_000, 12_000_000);
+    let n = ctx.n(300_000, 1_500_000);
     random_cases!(ctx, n, |r, i| {
         let flags = gen_flags(&mut r, ClvmFlags::all());
         let mut cfg = ProgCfg::full(flags);
@@ -268,7 +268,7 @@ pub fn run(ctx: &mut Ctx) {
         log_prog(ctx, &f, p.prog, p.env, flags, budget, plan, vary, i, "prog");
     });
     let ops = all_ops();
-    let n2 = ctx.n(500_000, 20_000_000);
+    let n2 = ctx.n(500_000, 4_000_000);
     random_cases!(ctx, n2, |r, i| {
         let op = r.pick(&ops);
         if op.slow && (miri || !r.chance(1, 8)) {
